@@ -64,6 +64,11 @@ def gen_pipeline(rng, kinds, allow_zip=True, two_async=0.3, sink_async=0.7, p_zi
         k = len(nodes)
         nodes.append({"kind": "zipmax", "ups": list(range(k)), "maxsize": rng.choice([1, 2])})
         last = k
+        if rng.random() < 0.3:
+            # a consumer that raises on some tuples: the zip must stay usable afterwards
+            nodes.append({"kind": "map", "f": ["sumTup"], "ups": [last]})
+            nodes.append({"kind": "sink", "mode": "sync", "f": ["failIf", 3, rng.choice([0, 1, 2])], "ups": [last + 1]})
+            return nodes
     else:
         last = 0
         n_async = 2 if rng.random() < two_async else 1
@@ -120,6 +125,8 @@ def choose_op(rng, run, nodes, st, opts):
         src = st["last_src"]        # let one producer of a zip run ahead of the other
     st["last_src"] = src
     val = st["val"] if not opts.get("small_alphabet") else rng.choice([0, 1, 2, 3])
+    if rng.random() < opts.get("p_nomd", 0.0):
+        return {"op": "emit", "node": src, "val": val, "md": []}     # e.g. a heartbeat mixed into checkpointed traffic
     return {"op": "emit", "node": src, "val": val, "md": [{"tag": st["tag"], "ref": st["ref"]}]}
 
 
@@ -290,6 +297,8 @@ def oracle_lossless(case, obs):
     """C02: every sink receives exactly what the synchronous semantics prescribe, once, in order."""
     nodes = case["nodes"]
     if any(n["kind"] in LOSSY for n in nodes) or any(op["op"] == "jobfail" for op in case["ops"]):
+        return []
+    if any(n["kind"] == "sink" and (n.get("f") or [""])[0] == "failIf" for n in nodes):
         return []
     ref = reference_case(case)
     # batching nodes: compare element sequences
@@ -467,7 +476,11 @@ def oracle_balance(case, obs):
     last = obs[-1]
     if last.get("pending") or last.get("jobs"):
         return problems
+    if any(o.get("err") for o in obs) or any(str(x).startswith("raised") for x in last.get("emits", [])):
+        return problems     # an element whose processing raised keeps the retains of the aborted frames, by design
     for r, c in enumerate(last.get("counts", []), 1):
+        if r not in ref_tag:
+            continue            # a reference id that no emission of this case carries
         tag = ref_tag.get(r)
         legit = 0
         for d, items in h.inside.items():
@@ -498,6 +511,7 @@ def oracle_backpressure(case, obs):
     owner, ref_tag = tag_owner(case)
     problems = []
     tsinks = [i for i, n in enumerate(nodes) if n["kind"] == "sink" and transparent_reach(nodes, i)]
+    failing_sink = any(n["kind"] == "sink" and (n.get("f") or [""])[0] == "failIf" for n in nodes)
     consumers = {}      # tok -> (sink, tags)
     handed = {i: 0 for i, n in enumerate(nodes) if n["kind"] in ("buffer", "map_async")}
     first_after_source = {}
@@ -526,7 +540,7 @@ def oracle_backpressure(case, obs):
                         problems.append(("emit-early", "op %d %r: the awaitable of emit #%d completed while consumer invocation %d (sink %d), "
                                          "reached without crossing a buffering node, has not finished" % (k, op, ix, tok, s)))
                         return problems
-            if stat.startswith("raised"):
+            if stat.startswith("raised") and not failing_sink:
                 problems.append(("emit-raised", "op %d %r: the awaitable of emit #%d failed with %s" % (k, op, ix, stat)))
                 return problems
         accepted = sum(1 for s in stats if s == "done")
@@ -567,7 +581,7 @@ def oracle_backpressure(case, obs):
                         problems.append(("emit-stuck:zipmax", "emit #%d (element %d of source %d) never completed although only %d tuple(s) were formed and maxsize is %d"
                                          % (ix, j, s_, tuples, nodes[z]["maxsize"])))
                         return problems
-                    if ix < len(stats) and stats[ix] == "done" and may_block:
+                    if ix < len(stats) and stats[ix] in ("done",) and may_block:
                         problems.append(("zip-maxsize-admits-all-blocked", "emit #%d (element %d of source %d) was accepted although %d elements of that source are unmatched (maxsize %d)"
                                          % (ix, j, s_, len(idxs) - tuples, nodes[z]["maxsize"])))
                         return problems
